@@ -919,20 +919,30 @@ should_include(const string &filename) const {
 bool InterrogateBuilder::
 is_inherited_published(CPPInstance *function, CPPStructType *struct_type) {
   nassertr(struct_type->_derivation.size() == 1, false);
-  CPPStructType *base = struct_type->_derivation[0]._base->as_struct_type();
-  nassertr(base != nullptr, false);
 
-  CPPScope *base_scope = base->get_scope();
-  CPPDeclaration *symbol = base_scope->find_symbol(function->get_simple_name(), true);
-  if (symbol == nullptr) {
-    // Couldn't find the inherited function.
-    return false;
-  }
+  // Walk up the derivation chain to the nearest class that declares the
+  // function.  We may only follow single, public, non-virtual derivations:
+  // that is the only kind along which the derived class inherits the
+  // function "properly", i.e. the kind the database records in a way that
+  // lets the function be reached from the derived class.
+  CPPFunctionGroup *fgroup = nullptr;
+  CPPStructType *ancestor = struct_type;
+  while (fgroup == nullptr) {
+    if (ancestor->_derivation.size() != 1 ||
+        ancestor->_derivation[0]._vis > V_public ||
+        ancestor->_derivation[0]._is_virtual) {
+      // Couldn't find the inherited function.
+      return false;
+    }
+    ancestor = ancestor->_derivation[0]._base->as_struct_type();
+    nassertr(ancestor != nullptr, false);
 
-  CPPFunctionGroup *fgroup = symbol->as_function_group();
-  if (fgroup == nullptr) {
-    // Weird, it wasn't a function.
-    return false;
+    CPPScope *scope = ancestor->get_scope();
+    CPPScope::Functions::const_iterator fi =
+      scope->_functions.find(function->get_simple_name());
+    if (fi != scope->_functions.end()) {
+      fgroup = (*fi).second;
+    }
   }
 
   CPPFunctionGroup::Instances::iterator ii;
